@@ -36,11 +36,13 @@ def obligations(tier, seed):
     # loaded in class bodies) and assigned_names: the quick tier takes every skeleton with a global/nonlocal statement or a
     # class body plus two others; thorough takes all
     order = []
-    setty = [k for k in range(n) if any(w in skeletons.TEMPLATES[k][1] for w in ('global ', 'nonlocal ', 'class '))]
-    chosen = (setty + [k for k in k2s if k not in setty][:2]) if tier == 'quick' else list(range(n))
+    setty = [k for k in range(n) if any(w in skeletons.TEMPLATES[k][1] for w in ('global ', 'nonlocal '))]
+    classy = [k for k in range(n) if 'class ' in skeletons.TEMPLATES[k][1] and k not in setty]
+    chosen = (setty + classy[(seed % 2)::2] + [k for k in k2s if k not in setty and k not in classy][:1]) if tier == 'quick' else list(range(n))
     for i, k in enumerate(chosen):
         for rg in ((bool((i + seed) % 2),) if tier == 'quick' and 'global ' not in skeletons.TEMPLATES[k][1] else (True, False)):
-            order.append(['k == %d' % k, 'len(A) == 3 and len(B) == 3 and len(C) == 3', '"." not in A and "." not in B and "." not in C', 'rg == %s' % rg])
+            order.append(['k == %d' % k, 'len(A) == 3 and len(B) == 3 and len(C) == 3', '"." not in A and "." not in B and "." not in C', 'rg == %s' % rg]
+                         + (["C == 'ccc'"] if tier == 'quick' else []))
     return [
         dict(name='C11.history', fn='history', shards=hist, timeout=t, bounds='see META'),
         dict(name='C11.set_order', fn='set_order', shards=order, timeout=t, bounds='see META'),
